@@ -19,6 +19,11 @@ Inductive prim := PAdd | PSub | PMul | PLt | PEq | PLen | PAppend | PNot | PPrin
 (* lambda parameters: `x`, `x = default`, `...x` *)
 Inductive pkind := KPlain | KSplat.
 
+(* catch patterns: `x`, `3`, `"s"`, `_` / `_: int` / `_: str` / `_: list`, `a, b` *)
+Inductive vty := TInt | TStr | TList.
+Inductive cpat :=
+| CName (x : name) | CInt (z : Z) | CStr (s : string) | CWild (t : option vty) | CList (xs : list name).
+
 (* switch patterns: an integer literal, a name (binds the scrutinee), `_` *)
 Inductive pat := PLit (z : Z) | PBind (x : name) | PWild.
 
@@ -40,6 +45,7 @@ Inductive expr :=
 | EContinue (n : nat)                           (* break^n continue *)
 | EReturn (e : option expr)
 | ETry (b : expr) (x : name) (h : expr)         (* try b catch x -> h *)
+| ETryP (b : expr) (p : cpat) (h : expr)        (* try b catch <pattern> -> h *)
 | EThrow (e : expr)
 | EAnd (a b : expr)
 | EOr (a b : expr)
